@@ -617,7 +617,11 @@ class Real:
             case = self.case
             mv = copy.deepcopy(case.get("m_build", case["m"]))
             N = mv["N"]
-            if kind == "rewards":
+            if kind == "rewards" and case.get("k", 0) % 6 == 2:
+                # constant rewards: the automatic horizon of the variant is 0 backups - as far as possible from
+                # what the case's own model needs (a planner must not carry anything over)
+                mv["R"] = [[[1 for _x in row] for row in sa] for sa in mv["R"]]
+            elif kind == "rewards":
                 mv["R"] = [[[-x + (s_ + a_) % 2 for x in row] for a_, row in enumerate(sa)] for s_, sa in enumerate(mv["R"])]
             elif kind == "observations":
                 # as different in information as possible: blind where the case reveals the state, as revealing
@@ -828,8 +832,12 @@ class Real:
             return
         pr = self.project_pbvi(r, used, eps, H)
         if not np.array_equal(np.asarray(r["alpha_vectors"]), np.asarray(res.alpha_vectors)):
-            rec["recon"] = "the re-run on the reconstructed belief set does not reproduce the returned alpha vectors"
-            return
+            # the planner did not run the backup loop it is configured for (threshold / horizon of THIS planner on
+            # THIS model, as the fresh call just made does): the statement's slack is the one of the configured run,
+            # so the returned policy is judged with the backup count of the fresh call (and the machine's)
+            rec["recon"] = ("the planner's alpha vectors are not those of point_based_value_iteration with the planner's "
+                            "threshold and horizon on the belief set it returned")
+            rec["no_machine_compare"] = True
         rec.update(known=True, bs=exact_seq[j_used], k=pr["k"], k_alt=pr["k_alt"], its=pr["its"], ran_out=pr["ran_out"], acts=pr["acts"])
         if spec_seq is not None:
             self.ctx.count("expansion_sequences_equal_to_the_exact_rule")
@@ -1156,6 +1164,9 @@ class Judge:
         if rec.get("known"):
             k, jr, robust = self.job_k(rec)
             same = self.compare_machine(rec, jr, robust)
+            if rec.get("recon"):
+                self.ctx.drift("Reconstruct", {"case": self.idx, "why": rec["recon"]})
+                same = False
         else:
             # which backups produced the vectors is unknown without hook H2: only the k = 0 slack is sound
             k, jr, same = 0, None, None
